@@ -30,6 +30,7 @@ type abortPlan struct {
 	AddError    bool   // the aborting handler records an error (c.AddError) right before it aborts
 	PreStatus   int    // != 0: the FIRST handler of the chain records this status (without committing) before anything else
 	Code        int
+	PanicAfter  bool // the aborting handler panics right after the abort (the router has an OnPanic hook that samples IsAborted)
 }
 
 func (h hb) String() string {
@@ -53,6 +54,9 @@ func (h hb) String() string {
 	}
 	if a.AddError {
 		s += " AddError-before-abort"
+	}
+	if a.PanicAfter {
+		s += " panics-right-after-the-abort(OnPanic hook installed)"
 	}
 	return s + ")"
 }
@@ -103,6 +107,10 @@ func (h hb) handler() rux.HandlerFunc {
 			}
 			rec.Ev("abort(%s)", h.ID)
 			ia(c, rec, "post")
+			if a.PanicAfter {
+				rec.Ev("panic-after-abort")
+				panic("fault right after the abort")
+			}
 			if a.When == "before" {
 				c.Next()
 			}
@@ -214,6 +222,13 @@ func (cc c05Chain) build() *rux.Router {
 	}
 	n := len(hs)
 	g, q := cc.NGlobal, cc.NGroup
+	for _, h := range cc.Chain {
+		if h.Ab != nil && h.Ab.PanicAfter {
+			r.OnPanic = func(c *rux.Context) {
+				recOf(c).Ev("hook-sees-aborted=%v", c.IsAborted())
+			}
+		}
+	}
 	if cc.Recover {
 		r.Use(func(c *rux.Context) {
 			defer func() {
@@ -406,6 +421,13 @@ func runC05(e *Env) {
 			// buffering middleware's business, not the statement's: only plain plans get one)
 			cc.Wrapper = plain
 		}
+		if !cc.Recover && !cc.Wrapper && chance(r, 1, 5) {
+			for i := range cc.Chain {
+				if cc.Chain[i].Ab != nil {
+					cc.Chain[i].Ab.PanicAfter = true
+				}
+			}
+		}
 		if cc.Recover {
 			t.Count("long.with_recover_middleware", 1)
 		}
@@ -479,6 +501,18 @@ func c05Check(t *T, cc c05Chain) {
 		}
 	}
 
+	if ab != nil && ab.PanicAfter {
+		// the panic unwinds every suspended handler: the trace ends at the abort, then the hook looks at the context
+		var cut []string
+		for _, ev := range spec.ev {
+			cut = append(cut, ev)
+			if ev == fmt.Sprintf("ia(%s,post)=true", cc.Chain[abIdx].ID) {
+				break
+			}
+		}
+		spec.ev = append(cut, "panic-after-abort", "hook-sees-aborted=true")
+		t.Count("abort.then_panic_with_hook", 1)
+	}
 	got := rec.Events
 	t.Tracef("status %d, writer calls [%s], trace: %s", rec.Status(), rec.CallLog(), strings.Join(got, " "))
 	if !eventsEqual(spec.ev, got) {
